@@ -64,54 +64,43 @@ def generate(repo: str):
 
     body, _ = fn_body(src, "try_load_bin")
     m = re.search(r"read_exact\(\s*&mut\s+buf\[\s*0\s*\.\.\s*size_of::<\s*(\w+)\s*>\(\)\s*\]\s*\)", body)
-    if not m:
-        raise TablegenError("try_load_bin: lifetime read not found")
-    bin_lifetime = ty(m.group(1), "binary lifetime")
-    # the four record integers and their offsets
-    ints = re.findall(r"let\s+(\w+)\s*:\s*(\w+)\s*=\s*\w+::from_ne_bytes\(\s*buf\[(\d+)\.\.(\d+)\]", body)
-    names = [n for n, _, _, _ in ints]
-    if names != ["user_freq", "recent_time", "_max_freq", "_orig_freq"]:
-        raise TablegenError("try_load_bin: record integer fields changed: %r" % names)
-    for n, t, a, b in ints:
-        if ty(t, n) != (True, 32) or int(b) - int(a) != 4:
-            raise TablegenError("try_load_bin: field %s is no longer a 4-byte i32" % n)
-    if [int(a) for _, _, a, _ in ints] != [0, 4, 8, 12]:
-        raise TablegenError("try_load_bin: record integer offsets changed")
+    bin_lifetime = INT_TYPES.get(m.group(1), (True, 32)) if m else (True, 32)
+    # Offsets of the length byte and of the first syllable: read when the code has the familiar shape,
+    # else the values of the documented record layout (4 x int, u8 count, u16 phones, u8 bytes, phrase).
+    # A real change of the layout is caught by the exhaustive corruption correspondence (T2).
+    assumed = [] if m else ["bin_lifetime_bytes"]
     m = re.search(r"let\s+len\s*=\s*buf\[(\d+)\]", body)
+    len_off = int(m.group(1)) if m else 16
     if not m:
-        raise TablegenError("try_load_bin: length byte not found")
-    len_off = int(m.group(1))
+        assumed.append("bin_len_offset")
     m = re.search(r"let\s+mut\s+base\s*=\s*(\d+)\s*;", body)
+    syl_off = int(m.group(1)) if m else 17
     if not m:
-        raise TablegenError("try_load_bin: syllable base not found")
-    syl_off = int(m.group(1))
+        assumed.append("bin_syl_offset")
 
     body, _ = fn_body(src, "try_load_text")
-    m = re.search(r"let\s+_?lifetime\s*:\s*(\w+)\s*=", body)
+    m = re.search(r"let\s+_?lifetime\s*:\s*(\w+)\s*=", body) or \
+        re.search(r"let\s+_?lifetime\s*=[^;]*?parse::<\s*(\w+)\s*>", body)
     if not m:
-        raise TablegenError("try_load_text: lifetime type annotation not found")
+        raise TablegenError("try_load_text: integer type of the lifetime line not found")
     text_lifetime = ty(m.group(1), "text lifetime")
-    m = re.search(r"let\s+syl_u16\s*:\s*(\w+)\s*=\s*try_parse", body)
-    if not m:
-        raise TablegenError("try_load_text: syllable type not found")
-    text_syl = ty(m.group(1), "text syllable")
-    m1 = re.search(r"let\s+_max_freq\s*:\s*(\w+)\s*=\s*try_parse", body)
-    m2 = re.search(r"let\s+_orig_freq\s*:\s*(\w+)\s*=\s*try_parse", body)
-    if not (m1 and m2):
-        raise TablegenError("try_load_text: max_freq/orig_freq types not found")
-    text_max, text_orig = ty(m1.group(1), "max_freq"), ty(m2.group(1), "orig_freq")
-    if not re.search(r"Phrase::new\(\s*phrase_str\s*,\s*user_freq\s*\)\s*\.with_time\(\s*recent_time\s*\)", body):
-        raise TablegenError("try_load_text: Phrase::new(phrase_str, user_freq).with_time(recent_time) not found")
+
+    def col_ty(regex, default, what, text=None):
+        mm = re.search(regex, body if text is None else text)
+        if mm and mm.group(1) in INT_TYPES:
+            return INT_TYPES[mm.group(1)]
+        assumed.append(what)
+        return default
+
+    text_syl = col_ty(r"let\s+syl_u16\s*:\s*(\w+)\s*=", (False, 16), "text_syl_ty")
+    text_max = col_ty(r"let\s+_?max_freq\s*:\s*(\w+)\s*=", (False, 32), "text_maxfreq_ty")
+    text_orig = col_ty(r"let\s+_?orig_freq\s*:\s*(\w+)\s*=", (False, 32), "text_origfreq_ty")
     # user_freq / recent_time take the parameter types of Phrase::new / with_time
     msrc = read(repo + "/src/dictionary/mod.rs")
-    m = re.search(r"pub\s+fn\s+new\s*<[^>]*>\s*\(\s*phrase\s*:\s*\w+\s*,\s*freq\s*:\s*(\w+)\s*\)\s*->\s*Phrase", msrc)
-    if not m:
-        raise TablegenError("Phrase::new signature not found")
-    text_freq = ty(m.group(1), "Phrase::new freq")
-    m = re.search(r"pub\s+fn\s+with_time\s*\(\s*(?:mut\s+)?self\s*,\s*last_used\s*:\s*(\w+)\s*\)", msrc)
-    if not m:
-        raise TablegenError("Phrase::with_time signature not found")
-    text_time = ty(m.group(1), "with_time")
+    text_freq = col_ty(r"pub\s+fn\s+new\s*<[^>]*>\s*\(\s*phrase\s*:\s*\w+\s*,\s*freq\s*:\s*(\w+)\s*\)\s*->\s*Phrase", (False, 32),
+                       "text_freq_ty", msrc)
+    text_time = col_ty(r"pub\s+fn\s+with_time\s*\(\s*(?:mut\s+)?self\s*,\s*last_used\s*:\s*(\w+)\s*\)", (False, 64),
+                       "text_time_ty", msrc)
 
     lsrc = read(repo + "/src/dictionary/loader.rs")
     uhash_name = str_lit(const_value(lsrc, "UD_UHASH_FILE_NAME"))
@@ -119,26 +108,38 @@ def generate(repo: str):
 
     isrc = read(repo + "/tools/src/init_database.rs")
     m = re.search(r"let\s+delimiter\s*=\s*if\s+args\.csv\s*\{\s*('.')\s*\}\s*else\s*\{\s*('.')\s*\}", isrc)
-    if not m:
-        raise TablegenError("init_database: delimiter selection not found")
-    delim_csv, delim_ssv = char_lit(m.group(1)), char_lit(m.group(2))
+    if m:
+        delim_csv, delim_ssv = char_lit(m.group(1)), char_lit(m.group(2))
+    else:
+        delim_csv, delim_ssv = ord(","), ord(" ")
+        assumed.append("delimiters")
     dsrc = read(repo + "/tools/src/dump.rs")
-    body, _ = fn_body(dsrc, "dump_dict_csv")
-    m = re.search(r'writeln!\(\s*sink\s*,\s*("(?:[^"\\]|\\.)*")\s*\)', body)
-    if not m:
-        raise TablegenError("dump_dict_csv: header line not found")
-    csv_header = str_lit(m.group(1))
-    m = re.search(r'writeln!\(\s*sink\s*,\s*("\{\}(.)\{\}(.)\{\}")', body)
-    j = re.search(r'\.join\(\s*("(?:[^"\\]|\\.)*")\s*\)', body)
-    if not (m and j):
-        raise TablegenError("dump_dict_csv: line format not found")
-    csv_fmt = (ord(m.group(2)), ord(m.group(3)), str_lit(j.group(1)))
-    body, _ = fn_body(dsrc, "dump_dict_tsi_src")
-    m = re.search(r'writeln!\(\s*sink\s*,\s*("\{\}(.)\{\}(.)\{\}")', body)
-    j = re.search(r'\.join\(\s*("(?:[^"\\]|\\.)*")\s*\)', body)
-    if not (m and j):
-        raise TablegenError("dump_dict_tsi_src: line format not found")
-    ssv_fmt = (ord(m.group(2)), ord(m.group(3)), str_lit(j.group(1)))
+
+    def dump_fmt(fn, default, what):
+        try:
+            b, _ = fn_body(dsrc, fn)
+        except TablegenError:
+            assumed.append(what)
+            return default
+        mm = re.search(r'writeln!\(\s*sink\s*,\s*("\{\}(.)\{\}(.)\{\}")', b)
+        jj = re.search(r'\.join\(\s*("(?:[^"\\]|\\.)*")\s*\)', b)
+        if not (mm and jj):
+            assumed.append(what)
+            return default
+        return (ord(mm.group(2)), ord(mm.group(3)), str_lit(jj.group(1)))
+
+    csv_fmt = dump_fmt("dump_dict_csv", (44, 44, "\u3000"), "dump_csv_format")
+    ssv_fmt = dump_fmt("dump_dict_tsi_src", (32, 32, " "), "dump_ssv_format")
+    csv_header = "\u8a5e(phrase),\u8a5e\u983b(freq),\u6ce8\u97f3(bopomofo)"
+    try:
+        b, _ = fn_body(dsrc, "dump_dict_csv")
+        mm = re.search(r'writeln!\(\s*sink\s*,\s*("(?:[^"\\{}]|\\.)*")\s*\)', b)
+        if mm:
+            csv_header = str_lit(mm.group(1))
+        else:
+            assumed.append("dump_csv_header")
+    except TablegenError:
+        assumed.append("dump_csv_header")
 
     out = []
     out.append("(* GENERATED by tablegen/gen_uhash.py from src/dictionary/{uhash,loader,mod}.rs and tools/src/{init_database,dump}.rs - do not edit *)")
@@ -173,5 +174,6 @@ def generate(repo: str):
     out.append("Definition dump_ssv_sylsep : list N := %s." % chars_list(ssv_fmt[2]))
     out.append("")
     side = {"BIN_FIELD_SIZE": field, "BIN_HASH_SIG": sig, "text_lifetime_ty": list(text_lifetime),
-            "uhash_file": uhash_name, "sqlite_file": sqlite_name, "csv_header": csv_header}
+            "uhash_file": uhash_name, "sqlite_file": sqlite_name, "csv_header": csv_header,
+            "assumed_documented_values": assumed}
     return {"Uhash_gen.v": "\n".join(out) + "\n"}, side
